@@ -473,7 +473,7 @@ def mode_contracts(reg):
 
     KEY = M.p_symbytes(desc="key: bytes of any length")
     out.append(FnContract(
-        target=f"{AES}::_get_round_keys", params=[("key", KEY)],
+        target=f"{AES}::_get_round_keys", params=sig_params("_get_round_keys", {"key": KEY}),
         returns=lambda c: VExt("RoundKeys", kexp_of(c.args["key"])),
         ensures=[("only-valid-key-lengths", lambda c: z3.Not(bad_len(c.args["key"].length)))],
         raises=[Raises("ValueError", when=lambda c: bad_len(c.args["key"].length))],
@@ -503,7 +503,7 @@ def mode_contracts(reg):
                       M.seq_eq(p, M.view(ra, n), p, z3.K(I, z3.Int2BV(p, 8))))              # ... followed by p bytes of value p
 
     out.append(FnContract(
-        target=f"{AES}::_pkcs7_pad", params=[("data", DATA), ("block_size", p_const(16))],
+        target=f"{AES}::_pkcs7_pad", params=sig_params("_pkcs7_pad", {"data": DATA, "block_size": p_const(16)}),
         ensures=[("data-followed-by-p-bytes-of-value-p", pad_post)],
         result_maker=fresh_bytes("padded"),
         note="p = 16 - len(data) % 16 in 1..16",
@@ -527,7 +527,7 @@ def mode_contracts(reg):
         return z3.If(n == 0, rn == 0, stripped)
 
     out.append(FnContract(
-        target=f"{AES}::_pkcs7_unpad", params=[("data", DATA), ("block_size", p_const(16))],
+        target=f"{AES}::_pkcs7_unpad", params=sig_params("_pkcs7_unpad", {"data": DATA, "block_size": p_const(16)}),
         ensures=[("removes-exactly-the-padding", unpad_post)],
         result_maker=fresh_bytes("unpadded"),
         raises=[Raises("ValueError", when=lambda c: z3.And(c.args["data"].length > 0, z3.Not(valid_padding(c))))],
@@ -587,7 +587,7 @@ def mode_contracts(reg):
             return z3.Or(c.args["data"].length % 16 != 0, bad_len(c.args["key"].length))
 
         return FnContract(
-            target=f"{AES}::{name}", params=[("key", KEY), ("data", DATA)],
+            target=f"{AES}::{name}", params=sig_params(name, {"key": KEY, "data": DATA}),
             ensures=[("every-block-is-the-block-cipher-of-the-corresponding-input-block", post), ("lengths-valid", lambda c: z3.Not(bad(c)))],
             raises=[Raises("ValueError", when=bad)],
             loops={0: LoopSpec(inv=inv, inv_point=inv_point, label="blocks")},
@@ -644,7 +644,7 @@ def mode_contracts(reg):
             return z3.Or(c.args["iv"].length != 16, c.args["data"].length % 16 != 0, bad_len(c.args["key"].length))
 
         return FnContract(
-            target=f"{AES}::{name}", params=[("key", KEY), ("iv", IV), ("data", DATA)],
+            target=f"{AES}::{name}", params=sig_params(name, {"key": KEY, "iv": IV, "data": DATA}),
             ensures=[("cbc-chaining-equation-for-every-block", post), ("lengths-valid", lambda c: z3.Not(bad(c)))],
             raises=[Raises("ValueError", when=bad)],
             loops={0: LoopSpec(inv=inv, inv_point=inv_point, label="blocks", rebind={"prev": fresh_block("prev")})},
